@@ -36,10 +36,18 @@ let rec sx_value (v : value) : t =
   | VSlice (t, en, cs) -> L (A "s" :: sx_int (int_of_n t) :: sx_bool en :: List.map sx_value cs)
   | VStruct (t, cs) -> L (A "t" :: sx_int (int_of_n t) :: List.map sx_value cs)
 
-(* (astdiff (from V) (to V)) -> (result (calls (P E)...) (to V') (nest 0|1) (decls ...)) | (result fuel) *)
+(* (astdiff (from V) (to V)) -> (result (calls (P E)...) (to V') (equal B) (plus (P E)...) (report OK ((J ATTACHED CLEAR)...))) | (result fuel) *)
+(* the new tree as snapshot(n, nil) builds it: no comments anywhere *)
+let rec strip (v : value) : value =
+  match v with
+  | VRef (t, i, e) -> VRef (t, { i with n_cmts = [] }, strip e)
+  | VSlice (t, en, cs) -> VSlice (t, en, List.map strip cs)
+  | VStruct (t, cs) -> VStruct (t, List.map strip cs)
+  | _ -> v
+
 let astdiff_case (fs : t list) : t =
   let from = value_of (List.hd (field "from" fs)) in
-  let to_ = value_of (List.hd (field "to" fs)) in
+  let to_ = strip (value_of (List.hd (field "to" fs))) in
   match diff_snapshot from to_ with
   | None -> L [A "result"; A "fuel"]
   | Some w ->
@@ -52,6 +60,7 @@ let astdiff_case (fs : t list) : t =
        L (A "calls" :: List.map (fun (p, e) -> L [sz p; sz e]) w.w_log);
        L [A "to"; sx_value w.w_to];
        L [A "equal"; sx_bool w.w_equal];
+       L (A "plus" :: List.map (fun (p, e) -> L [sz p; sz e]) (record_changed w.w_log));
        rep]
 
 let handle (x : t) : t option =
